@@ -46,8 +46,18 @@ prop('C12', level='other', design_ref='DESIGN.md section 6 (C12)',
      not_decided=['Merkle.level / branch_and_root_from_level / MerkleCache are not yet under deductive contract'],
      assumptions=[])
 
+prop('C16', level='proof', design_ref='DESIGN.md section 6 (C16)',
+     technique='deductive verification: exception-escape and frame VCs generated from the real handlers with arguments '
+               'ranging over a JSON datatype, z3',
+     text='For every function under contract the set of exception classes that can escape is proved to be a subset of the '
+          'protocol-error classes for all JSON argument values.',
+     note='Trusted: contracts of int()/str()/bytes.fromhex/f-string formatting on JSON values (T-INT, T-STR, T-HEX), '
+          'aiorpcx dispatch (T-RPCX).',
+     explanation='Escape-set proofs over the JSON datatype J.',
+     not_decided=['failures that need a concurrent reorg (schedules, not inputs)'], assumptions=[])
+
 for _pid in ['C01', 'C02', 'C03', 'C04', 'C05', 'C07', 'C08', 'C09', 'C10', 'C11', 'C13', 'C14', 'C15',
-             'C16', 'C17', 'C18', 'C19']:
+             'C17', 'C18', 'C19']:
     na(_pid, 'contracts for this property are not yet built in this round (planned: DESIGN.md section 6); nothing is claimed')
 na('C06', 'quantifies over cancellation instants of an asyncio task while worker-thread jobs keep running: not '
           'expressible as pre/postconditions of functions in a sequential or cooperative model (DESIGN.md section 6, C06)')
